@@ -419,6 +419,7 @@ func checkC17(w *World, r *Report) {
 	checkCallsNotTolerant(w, r)
 	a.checkTopLevel(r)
 	a.checkLoadersExhausted(r)
+	checkNamedFilterApplied(w, r)
 }
 
 func uniqStrings(s []string) []string {
@@ -870,4 +871,96 @@ func underEmptyParam(p *ssa.Parameter, b *ssa.BasicBlock) bool {
 		}
 	}
 	return false
+}
+
+// checkNamedFilterApplied — R17.5: a node that names a filter applies it.  In the Render method
+// of every node type that carries a filter name (`{% apply f %}`), no return that can carry a
+// nil error is reachable without the call that applies that filter: a fast path that skips the
+// call ("the body is empty, nothing to filter") also skips the lookup, so an unknown or failing
+// filter goes unreported for some bodies.
+func checkNamedFilterApplied(w *World, r *Report) {
+	applyFilter := w.method("RenderContext", "ApplyFilter")
+	n := 0
+	for _, nt := range w.nodeStructs() {
+		st, ok := nt.Underlying().(*types.Struct)
+		if !ok {
+			continue
+		}
+		hasFilter := false
+		for i := 0; i < st.NumFields(); i++ {
+			if st.Field(i).Name() == "filter" && types.Identical(st.Field(i).Type(), types.Typ[types.String]) {
+				hasFilter = true
+			}
+		}
+		m := w.tryMethod(nt.Obj().Name(), "Render")
+		if !hasFilter || m == nil {
+			continue
+		}
+		fn := w.ssaFunc(m)
+		isApply := func(in ssa.Instruction) bool {
+			c, ok := in.(ssa.CallInstruction)
+			if !ok {
+				return false
+			}
+			if _, isDefer := in.(*ssa.Defer); isDefer {
+				return false
+			}
+			check := func(c ssa.CallInstruction) bool {
+				if calleeFunc(c) != applyFilter {
+					return false
+				}
+				args := callArgs(c)
+				if len(args) == 0 {
+					return false
+				}
+				_, f := originField(args[0], 0)
+				return f == "filter"
+			}
+			if check(c) {
+				return true
+			}
+			// through a helper of the package that is handed the node or the name
+			if g := c.Common().StaticCallee(); g != nil && isTwigFn(g) && len(g.Blocks) > 0 && g != fn {
+				found := false
+				instrsOf(g, func(x ssa.Instruction) {
+					if c2, ok := x.(ssa.CallInstruction); ok && calleeFunc(c2) == applyFilter {
+						found = true
+					}
+				})
+				return found
+			}
+			return false
+		}
+		has := false
+		instrsOf(fn, func(in ssa.Instruction) {
+			if isApply(in) {
+				has = true
+			}
+		})
+		if !has {
+			continue // the node's filter is applied elsewhere (expression evaluation): R07.5
+		}
+		n++
+		construct := "the named filter is applied before any successful return"
+		bad := ""
+		instrsOf(fn, func(in ssa.Instruction) {
+			ret, ok := in.(*ssa.Return)
+			if !ok || bad != "" {
+				return
+			}
+			res := retResults(ret)
+			if len(res) == 0 || errorSurelyNonNil(res[len(res)-1], ret.Block()) {
+				return
+			}
+			if found, path := existsPathAvoiding(fn, in, isApply, nil); found {
+				bad = w.posOf(ret.Pos()) + " (path " + strings.Join(path, " → ") + ")"
+			}
+		})
+		if bad == "" {
+			r.ok("R17.5", ssaName(fn), construct, w.posOf(fn.Pos()), "every return that can carry a nil error lies behind the ApplyFilter call", true)
+		} else {
+			r.bad("R17.5", ssaName(fn), construct, w.posOf(fn.Pos()), "a return at "+bad+" can succeed without the node's filter having been applied (or even looked up): for the bodies that take this path an unknown or failing filter is not reported")
+		}
+	}
+	r.Counts["node renderers that apply a named filter"] = n
 }
